@@ -32,6 +32,7 @@ func init() {
 			{Name: "revert-fix-acquire-unchecked", Rule: "ACQUIRE-CHECK", File: "pkg/eval/builtin_fn_flow.go", Old: "\t\t\tif workerSema.Acquire(ctx, 1) != nil {\n\t\t\t\t// The context was canceled while waiting for a free worker;\n\t\t\t\t// don't start any more callbacks.\n\t\t\t\tatomic.StoreInt32(&broken, 1)\n\t\t\t\treturn\n\t\t\t}", New: "\t\t\tworkerSema.Acquire(ctx, 1)", Fire: true, Quick: true, Patterns: []string{"./pkg/eval"}},
 			{Name: "acquire-failure-still-spawns", Rule: "ACQUIRE-CHECK", File: "pkg/eval/builtin_fn_flow.go", Old: "\t\t\t\tatomic.StoreInt32(&broken, 1)\n\t\t\t\treturn\n\t\t\t}\n\t\t\t// A callback that finished", New: "\t\t\t\tatomic.StoreInt32(&broken, 1)\n\t\t\t}\n\t\t\t// A callback that finished", Fire: true, Patterns: []string{"./pkg/eval"}},
 			{Name: "sleep-ignores-context", Rule: "INTERRUPTIBLE-BLOCK", File: "pkg/eval/builtin_fn_time.go", Old: "\tselect {\n\tcase <-fm.Context().Done():\n\t\treturn ErrInterrupted\n\tcase <-timeAfter(fm, d):\n\t\treturn nil\n\t}", New: "\t<-timeAfter(fm, d)\n\treturn nil", Fire: true, Patterns: []string{"./pkg/eval"}},
+			{Name: "revert-fix-pipe-failure-returns-without-waiting", Rule: "JOINED", File: "pkg/eval/compile_effect.go", Old: "\t\t\t\texcs[i] = fm.errorpf(op, \"failed to create pipe: %s\", e)\n\t\t\t\twg.Add(i - nforms)\n\t\t\t\tbreak\n", New: "\t\t\t\treturn fm.errorpf(op, \"failed to create pipe: %s\", e)\n", Fire: true, Want: "joined on every path", Quick: true, Patterns: []string{"./pkg/eval"}},
 			{Name: "run-parallel-not-joined", Rule: "JOINED", File: "pkg/eval/builtin_fn_flow.go", Old: "\twg.Wait()\n\treturn MakePipelineError(exceptions)", New: "\treturn MakePipelineError(exceptions)", Fire: true, Patterns: []string{"./pkg/eval"}},
 			{Name: "fileport-cleanup-does-not-wait", Rule: "JOINED", File: "pkg/eval/port.go", Old: "\t\tclose(ch)\n\t\t<-relayDone\n\t}", New: "\t\tclose(ch)\n\t}", Fire: true, Patterns: []string{"./pkg/eval"}},
 			{Name: "benign-canceled-in-helper", Rule: "CANCEL-GATE", File: "pkg/eval/compile_effect.go", Old: "func (op *pipelineOp) exec(fm *Frame) Exception {\n\tif fm.Canceled() {\n\t\treturn fm.errorp(op, ErrInterrupted)\n\t}\n", New: "func (op *pipelineOp) exec(fm *Frame) Exception {\n\tif canceled := fm.Canceled(); canceled {\n\t\treturn fm.errorp(op, ErrInterrupted)\n\t}\n", Fire: false, Patterns: []string{"./pkg/eval"}},
@@ -473,6 +474,52 @@ func runJoined(p *core.Program, r *core.Report, rule string) {
 			if fk == "(*eval.Frame).IterateInputs" && cf != nil && signals["close"] && !signals["wg"] {
 				r.Audit(rule, construct, p.InsPos(ins), joinedAudit["(*eval.Frame).IterateInputs#3"])
 				return
+			}
+			// path clause: when the spawner itself calls wg.Wait(), it does so
+			// on every path from the go statement to a return (or hands the
+			// wait to a goroutine that does, as a background pipeline does)
+			if joined && signals["wg"] && fn == outer {
+				ownWait := false
+				core.Instrs(fn, func(x ssa.Instruction) {
+					if isWGCall(x, "Wait") {
+						ownWait = true
+					}
+				})
+				if ownWait {
+					hit := func(x ssa.Instruction) bool {
+						if isWGCall(x, "Wait") {
+							return true
+						}
+						var callee ssa.Value
+						switch y := x.(type) {
+						case *ssa.Go:
+							callee = y.Call.Value
+						case *ssa.Defer:
+							callee = y.Call.Value
+						default:
+							return false
+						}
+						if c2, ok := closureOf(callee); ok && c2 != cf {
+							waits := false
+							core.Instrs(c2, func(z ssa.Instruction) {
+								if isWGCall(z, "Wait") {
+									waits = true
+								}
+							})
+							return waits
+						}
+						return false
+					}
+					if ok, exit := core.MustPass(ins, hit, nil); !ok {
+						what := "a return"
+						if ret, isRet := exit.(*ssa.Return); isRet && len(ret.Results) > 0 {
+							what = "the return of " + addrDesc(ret.Results[len(ret.Results)-1])
+						}
+						r.Bad(rule, construct+" joined on every path", p.InsPos(exit), "after this goroutine is started, "+what+" leaves the spawner without waiting for it (no wg.Wait on that path, and the wait is not handed to another goroutine): the goroutine outlives the evaluation, and nobody unblocks what it is writing to")
+						return
+					}
+					r.OK(rule, construct+" joined on every path", p.InsPos(ins), "every path from the go statement to a return passes wg.Wait() or hands the wait to a goroutine that calls it")
+				}
 			}
 			if joined {
 				r.OK(rule, construct, p.InsPos(ins), "the goroutine signals completion (WaitGroup.Done / close / send) and the spawner, a deferred or a returned cleanup function waits for it")
